@@ -245,7 +245,10 @@ func (db *DB) calculateEndOffset(
 			); err != nil {
 				return 0, 0, err
 			}
-			ts = approxStamp.Lower
+			// Since the domain start is inexact, the stamp is approximated between the
+			// last deleted sample (lower) and the first kept sample (upper): the kept
+			// domain must start at the first kept sample.
+			ts = approxStamp.Upper
 		} else if !approxDist.StartExact {
 			// If start is inexact, we must use the lower approximation. (Note that the
 			// start is only inexact because of domain cutoff).
